@@ -200,6 +200,47 @@ fn enc_bytes(rng: &mut Rng, enc: &'static encoding_rs::Encoding, maxlen: usize) 
     v
 }
 
+/// The other constructors of LossyDecoder: a caller-made encoding_rs decoder (here: without BOM
+/// handling, against decode_without_bom_handling) and `utf8()`; `inner_sink()` is read after every
+/// chunk: what has been delivered so far must be a prefix of the final text (nothing is retracted),
+/// and `inner_sink_mut()` / `error()` reach the same sink.
+fn check_encoding_ctor_variants(enc: &'static encoding_rs::Encoding, input: &[u8], cuts: &[usize], st: &mut Stats) {
+    let utf8 = enc == encoding_rs::UTF_8;
+    let (want, had_errors) = if utf8 { (String::from_utf8_lossy(input).into_owned(), false) } else { let (w, e) = enc.decode_without_bom_handling(input); (w.into_owned(), e) };
+    let r = catch(|| {
+        let mut d: LossyDecoder<Rec> = if utf8 { LossyDecoder::utf8(Rec::default()) } else { LossyDecoder::new_from_encoding_rs_decoder(enc.new_decoder_without_bom_handling(), Rec::default()) };
+        let mut not_prefix = None;
+        for (k, c) in split_bytes(input, cuts).iter().enumerate() {
+            d.process(Tendril::<Bytes>::from_slice(c));
+            if !want.starts_with(d.inner_sink().out.as_str()) && not_prefix.is_none() {
+                not_prefix = Some(k);
+            }
+        }
+        // the decoder forwards error() to the sink it wraps
+        let before = d.inner_sink().errors;
+        d.error("probe".into());
+        let forwarded = d.inner_sink().errors == before + 1;
+        d.inner_sink_mut().errors -= 1;
+        (d.finish(), not_prefix, forwarded)
+    });
+    st.count("constructor_variant_runs");
+    let rep = || json!({"kind": "enc-ctor", "encoding": enc.name(), "bytes": hex(input), "cuts": cuts});
+    match r {
+        Err(m) => st.violation(&format!("enc-ctor:panic:{}", crate::report::panic_signature(&m)), &format!("{} bytes [{}] cuts={:?}: panic {m}", enc.name(), hex(&input[..input.len().min(40)]), &cuts[..cuts.len().min(8)]), rep()),
+        Ok((rec, not_prefix, forwarded)) => {
+            if rec.out != want {
+                st.violation("enc-ctor:text", &format!("{} (decoder without BOM handling) bytes [{}] cuts={:?}: chunked output differs from decode_without_bom_handling (lengths {} vs {})", enc.name(), hex(&input[..input.len().min(40)]), &cuts[..cuts.len().min(8)], rec.out.len(), want.len()), rep());
+            } else if let Some(k) = not_prefix {
+                st.violation("enc-ctor:not-a-prefix", &format!("{} bytes [{}] cuts={:?}: after chunk #{k} the text delivered so far is not a prefix of the final text", enc.name(), hex(&input[..input.len().min(40)]), &cuts[..cuts.len().min(8)]), rep());
+            } else if !forwarded {
+                st.violation("enc-ctor:error-not-forwarded", &format!("{}: LossyDecoder::error() did not reach the inner sink", enc.name()), rep());
+            } else if !utf8 && (rec.errors > 0) != had_errors {
+                st.violation("enc-ctor:error-flag", &format!("{} bytes [{}]: {} error reports, one-shot decode had_errors={had_errors}", enc.name(), hex(&input[..input.len().min(40)]), rec.errors), rep());
+            }
+        },
+    }
+}
+
 fn check_encoding(enc: &'static encoding_rs::Encoding, input: &[u8], cuts: &[usize], st: &mut Stats) {
     let (want, _used, had_errors) = enc.decode(input);
     let want: String = if enc == encoding_rs::UTF_8 {
@@ -351,6 +392,31 @@ fn check_entry_points(input: &[u8], rng: &mut Rng, st: &mut Stats) {
         Err(m) => judge("read_from", &sizes, Err(m), st),
     }
     st.count("entry_point_runs");
+    // read_from() over a reader that breaks: the error must come back (no panic, no hang, no Ok)
+    if rng.chance(1, 10) {
+        struct Broken<'a>(Trickle<'a>, usize);
+        impl std::io::Read for Broken<'_> {
+            fn read(&mut self, buf: &mut [u8]) -> std::io::Result<usize> {
+                if self.0.pos >= self.1 {
+                    return Err(std::io::Error::new(std::io::ErrorKind::Other, "broken pipe"));
+                }
+                let room = self.1 - self.0.pos;
+                let n = buf.len().min(room);
+                self.0.read(&mut buf[..n])
+            }
+        }
+        let at = rng.below(input.len() + 1);
+        let r = catch(|| {
+            let mut b = Broken(Trickle { data: input, pos: 0, sizes: vec![3, 4096, 1], k: 0, interrupts: 0 }, at);
+            Utf8LossyDecoder::new(Rec::default()).read_from(&mut b).map(|_| ())
+        });
+        st.count("read_from_runs_with_io_error");
+        match r {
+            Ok(Err(_)) => {},
+            Ok(Ok(())) => st.violation("entry:read_from:io-error-swallowed", &format!("read_from over a reader that fails after {at} of {} bytes returned Ok", input.len()), rep("read_from-io-error", &[at])),
+            Err(m) => st.violation("entry:read_from:panic-or-error", &format!("read_from over a reader that fails after {at} bytes: {m}"), rep("read_from-io-error", &[at])),
+        }
+    }
     // from_file() (a real file, so reads are as long as the buffer)
     if !cfg!(miri) && rng.chance(1, 8) {
         let path = std::env::temp_dir().join(format!("vharness-c10-{}-{:x}", std::process::id(), rng.next_u64()));
@@ -431,6 +497,11 @@ pub fn run(args: &Args) -> (Meta, Stats) {
                 }
             },
             "tree" => check_tree(&bytes, &cuts, &mut st),
+            "enc-ctor" => {
+                if let Some(e) = encoding_rs::Encoding::for_label(v["encoding"].as_str().unwrap_or("").as_bytes()) {
+                    check_encoding_ctor_variants(e, &bytes, &cuts, &mut st);
+                }
+            },
             "entry" => {
                 // the read schedule is redrawn; all entry points are exercised over the recorded bytes
                 let mut rng = Rng::new(1);
@@ -490,6 +561,9 @@ pub fn run(args: &Args) -> (Meta, Stats) {
                     st.distinct.insert(hash_bytes(&b));
                     check_encoding(enc, &b, &cuts, st);
                     st.count("encoding_runs");
+                    if k % 8 == 1 && b.len() < 4000 {
+                        check_encoding_ctor_variants(enc, &b, &cuts, st);
+                    }
                 },
                 _ => {
                     let b = random_bytes(&mut rng, 48);
@@ -502,12 +576,12 @@ pub fn run(args: &Args) -> (Meta, Stats) {
     });
     let mut m = super::meta(
         args,
-        &format!("(1) exhaustive: every byte string of length 0..={maxlen} over 25 UTF-8 byte-class representatives (every lead class, every continuation sub-range boundary, invalid leads) under EVERY chunking (2^(n-1) schedules) through Utf8LossyDecoder: concatenated output == String::from_utf8_lossy, error reports == replacements inserted (counted independently). (2) random byte strings up to 64 bytes with truncated sequences x random chunkings incl. 1-byte and empty chunks. (3) LossyDecoder over all 40 encoding_rs encodings: chunked output == one-shot Encoding::decode of the concatenation (BOM-sniffing decoder on both sides), inputs biased to lead/trail ranges, ISO-2022-JP escapes, UTF-16 surrogate halves, BOMs, truncation at EOF, outputs > 8192 bytes. (4) parse_document(..).from_utf8() over chunks (HTML and XML) gives the tree of parsing the lossy string. (5) the other TendrilSink entry points over inputs of up to 13000 bytes (sizes around the 4096-byte read block): one(), from_iter(), read_from() with a reader that returns short reads of scheduled sizes (1, 2, 3, 4095, 4096, ...) and Interrupted errors, from_file() on a real temporary file, and the HTML parser behind from_utf8().read_from(). Distinct = distinct byte strings."),
+        &format!("(1) exhaustive: every byte string of length 0..={maxlen} over 25 UTF-8 byte-class representatives (every lead class, every continuation sub-range boundary, invalid leads) under EVERY chunking (2^(n-1) schedules) through Utf8LossyDecoder: concatenated output == String::from_utf8_lossy, error reports == replacements inserted (counted independently). (2) random byte strings up to 64 bytes with truncated sequences x random chunkings incl. 1-byte and empty chunks. (3) LossyDecoder over all 40 encoding_rs encodings: chunked output == one-shot Encoding::decode of the concatenation (BOM-sniffing decoder on both sides), inputs biased to lead/trail ranges, ISO-2022-JP escapes, UTF-16 surrogate halves, BOMs, truncation at EOF, outputs > 8192 bytes; the other constructors (new_from_encoding_rs_decoder with a decoder without BOM handling, utf8()) with inner_sink() read after every chunk (text delivered so far is a prefix of the final text) and error() forwarding. (4) parse_document(..).from_utf8() over chunks (HTML and XML) gives the tree of parsing the lossy string. (5) the other TendrilSink entry points over inputs of up to 13000 bytes (sizes around the 4096-byte read block): one(), from_iter(), read_from() with a reader that returns short reads of scheduled sizes (1, 2, 3, 4095, 4096, ...) and Interrupted errors, from_file() on a real temporary file, and the HTML parser behind from_utf8().read_from(). Distinct = distinct byte strings."),
         &["String::from_utf8_lossy and encoding_rs's one-shot decode are the trusted references", "the class quotient is exhaustive; general byte strings are sampled"],
     );
     m.exhaustive = true;
     if !sanit {
-        m.require = vec![("exhaustive_strings".into(), 400_000), ("encoding_runs".into(), 20_000), ("encodings_exercised".into(), 40), ("tree_runs".into(), 2000), ("enc_runs_with_output_over_8192_bytes".into(), 20), ("entry_point_runs".into(), 500), ("read_from_runs_with_several_reads".into(), 100), ("read_from_runs_with_interrupted_reads".into(), 50)];
+        m.require = vec![("exhaustive_strings".into(), 400_000), ("encoding_runs".into(), 20_000), ("encodings_exercised".into(), 40), ("tree_runs".into(), 2000), ("enc_runs_with_output_over_8192_bytes".into(), 20), ("entry_point_runs".into(), 500), ("constructor_variant_runs".into(), 2000), ("read_from_runs_with_several_reads".into(), 100), ("read_from_runs_with_interrupted_reads".into(), 50)];
     }
     (m, st)
 }
